@@ -1,6 +1,6 @@
 import OhkamiModel.P.Hdrs
 import OhkamiModel.GenReqHeaders
-/-! C02 model: `Request::read` (after F5a–F5e, F6, F19) over the bytes of the first read, byte_reader style. -/
+/-! C02 model: `Request::read` (ohkami/src/request/mod.rs, as repaired) over the bytes of the first read, byte_reader style. -/
 namespace Ohkami.Http
 open Ohkami.P
 
@@ -111,11 +111,11 @@ def finish (method : String) (npath : Bytes) (query : Option Bytes) (r6 more : B
       else if len ≥ PAYLOAD_LIMIT then .reject 413
       else if remaining.length = 0 then
         if more.length ≥ len then .ok ⟨method, npath, query, std, cus, some (more.take len)⟩
-        else .panic "read_exact: UnexpectedEof"
+        else .close   -- `read_exact` hit the end of the connection: the session ends (after the repair; it was an `unwrap` panic)
       else if len ≤ remaining.length then .ok ⟨method, npath, query, std, cus, some (remaining.take len)⟩
       else if more.length ≥ len - remaining.length then
         .ok ⟨method, npath, query, std, cus, some (remaining ++ more.take (len - remaining.length))⟩
-      else .panic "read_exact: UnexpectedEof"
+      else .close   -- `read_exact` hit the end of the connection: the session ends (after the repair; it was an `unwrap` panic)
 
 /-- `first` = the bytes of the first read (1 ≤ len ≤ 1024), `more` = what the stream still holds when `read_exact` runs -/
 def parse (first more : Bytes) : Outcome Parsed :=
